@@ -13,6 +13,7 @@ from solve import decide, checked
 from stypes import val_eq, znot, _and
 
 _PROGS = {}
+_FAM_CACHE = {}
 
 
 def load_prog(path):
@@ -424,7 +425,9 @@ def _c06(dump_path, fname, tier, fam, idx):
     prog = load_prog(dump_path)
     f = find_func(prog, fname)
     out = base_out(fname, f)
-    entry = [e for e in matrix.all_entries([fam])[fam] if e.name == fname][0]
+    if fam not in _FAM_CACHE:
+        _FAM_CACHE[fam] = {e.name: e for e in matrix.all_entries([fam])[fam]}
+    entry = _FAM_CACHE[fam][fname]
     if entry.spec is None:
         out["status"] = "outside"
         out["reason"] = "no mathematical spec"
@@ -618,3 +621,96 @@ def _c03(dump_path, fname, tier):
 
 
 c03_worker = wrap(_c03)
+
+
+# ------------------------------------------------------------------------------ C05
+def _c05(dump_path, fname, tier, variant_dumps):
+    """Translation validation between configurations: the baseline compilation (optimizations
+    disabled) and each variant are executed symbolically over the same input variables; for every
+    pair of accepted paths the user-visible outcomes must agree."""
+    from analysis import map_val, noninput_vars
+    tp = tier_params(tier)
+    t0 = time.time()
+    base_prog = load_prog(dump_path)
+    f = find_func(base_prog, fname)
+    out = base_out(fname, f)
+    out["pairs"] = 0
+    fa = explore(base_prog, f, False, tp, out)
+    if fa is None:
+        return out
+    for tag, vpath in variant_dumps:
+        vprog = load_prog(vpath)
+        vf = find_func(vprog, fname)
+        if vf is None:
+            out["undecided"].append(f"{fname}:{tag}:function missing in variant")
+            continue
+        vout = base_out(fname, vf)
+        vfa = explore(vprog, vf, False, tp, vout)
+        if vfa is None:
+            out["undecided"].append(f"{fname}:{tag}:variant outside bounds: {vout.get('reason')}")
+            continue
+        out["steps"] += vout["steps"]
+        out["paths"] += vout["paths"]
+        if len(vfa.cases) != len(fa.cases):
+            out["undecided"].append(f"{fname}:{tag}:input shapes differ")
+            continue
+        for case, vcase in zip(fa.cases, vfa.cases):
+            for pi, a in enumerate(case.results):
+                if not a.ok:
+                    continue
+                ua = user_outcome(fa, a)
+                for pj, b in enumerate(vcase.results):
+                    if not b.ok:
+                        continue
+                    qn = f"{fname}:{tag}:case{case.idx}:path{pi}x{pj}"
+                    if time.time() - t0 > tp["func_budget_s"]:
+                        out["undecided"].append(qn + ":budget")
+                        continue
+                    ub = user_outcome(vfa, b)
+                    vb = noninput_vars(vcase, b.path)
+                    pairs = [(v, z3.Int(str(v) + "'")) for v in vb]
+                    sub = (lambda e: z3.substitute(e, *pairs)) if pairs else (lambda e: e)
+                    conj_b = z3.And(*b.path.exprs()) if b.path.cons else z3.BoolVal(True)
+                    if ua is None or ub is None:
+                        eq = (ua is None) == (ub is None)
+                    else:
+                        eq = val_eq(ua[0], map_val(ub[0], sub))
+                    out["queries"] += 1
+                    out["pairs"] += 1
+                    if eq is True:
+                        out["discharged"] += 1
+                        continue
+                    q = decide(a.path.exprs() + [sub(conj_b), znot(eq)], tp["query_ms"])
+                    if q.status == "unsat":
+                        out["discharged"] += 1
+                        out["methods"][q.method] = out["methods"].get(q.method, 0) + 1
+                    elif q.status == "unknown":
+                        out["undecided"].append(qn)
+                    else:
+                        ev_a = make_ev(q.model)
+                        ev_b = make_ev(q.model, pairs)
+                        va, _ = runner_view(fa, a, ev_a)
+                        vbv, _ = runner_view(vfa, b, ev_b)
+                        out["candidates"].append({
+                            "query": qn, "func": f["name"], "variant": tag,
+                            "args": args_of(case, ev_a),
+                            "overrides_a": hint_overrides(a, ev_a),
+                            "overrides_b": hint_overrides(b, ev_b),
+                            "view_a": [va[0], [str(x) for x in va[1]]],
+                            "view_b": [vbv[0], [str(x) for x in vbv[1]]],
+                            "why": f"baseline and configuration {tag} disagree"})
+        # reachability witnesses of the variant are validated against the real VM as well
+        for vcase in vfa.cases:
+            for b in vcase.results[:3]:
+                if b.ok:
+                    q = decide(b.path.exprs(), tp["reach_ms"], abstract_first=False)
+                    if q.status == "sat":
+                        wt = witness(vfa, vcase, b, q.model)
+                        wt["overrides"] = hint_overrides(b, make_ev(q.model))
+                        wt["variant"] = tag
+                        out["witnesses"].append(wt)
+    out["secs"] = round(time.time() - t0, 2)
+    return out
+
+
+c05_worker = wrap(_c05)
